@@ -45,7 +45,8 @@ pub fn siter(case: &Case, eff: &mut Eff, f: impl FnOnce(ParEmpty<SchedIter<ConIt
 }
 
 pub fn srange(case: &Case, eff: &mut Eff, f: impl FnOnce(ParEmpty<SchedIter<ConIterOfRange<usize>>>) -> R) -> R {
-    *eff = elems_of(&case.input);
+    // millions of elements: no reference input (such cases are judged on the pull log only)
+    *eff = if case.input.len() > 1_000_000 { Vec::new() } else { elems_of(&case.input) };
     let r = 1usize..case.input.len() + 1;
     f(par_from_con_iter(SchedIter::new(IntoConcurrentIter::into_con_iter(r))))
 }
